@@ -32,7 +32,7 @@ def copts(x):
     return o or {"plain"}
 
 
-pairs, sib = set(), set()
+pairs, sib, same = set(), set(), {"struct": set(), "variant": set()}
 for x in c["receivers"]:
     levels = [x["fields"]] if x["kind"] == "struct" else [v["fields"] for v in x.get("variants", []) if v["style"] == "struct"]
     for fields in levels:
@@ -40,6 +40,10 @@ for x in c["receivers"]:
             for a in copts(x):
                 for b in fopts(f):
                     pairs.add((x["kind"], a, b))
+        for f in fields:
+            fo = sorted(o for o in fopts(f) if not o.startswith("ty:"))
+            for a, b in itertools.combinations(fo, 2):
+                same["struct" if x["kind"] == "struct" else "variant"].add((a, b))
         for f, g in itertools.combinations(fields, 2):
             for a in fopts(f):
                 for b in fopts(g):
@@ -52,3 +56,8 @@ print("struct: container x field pairs missing:", len(miss), "of", len(C) * len(
 S = F[:9]
 ms = [(a, b) for a, b in itertools.combinations_with_replacement(S, 2) if tuple(sorted((a, b))) not in sib]
 print("sibling field-option pairs missing:", ms)
+INVALID = {("flatten", "rename"), ("flatten", "with"), ("flatten", "skip"), ("flatten", "multiple"), ("post:and_then", "post:map"),
+           ("default:explicit", "default:trait")}
+for where in ("struct", "variant"):
+    mp = [(a, b) for a, b in itertools.combinations(sorted(S), 2) if (a, b) not in same[where] and (a, b) not in INVALID and (b, a) not in INVALID]
+    print("two options on one field, at a %s level, missing:" % where, mp)
